@@ -28,7 +28,7 @@ VARIANTS = {
 VARIANTS["cov"] = dict(cc="clang", cxx="clang++",
                        cflags=["-O1", "-g", "-fprofile-instr-generate", "-fcoverage-mapping", "-fno-omit-frame-pointer", "-fno-optimize-sibling-calls", "-fno-pie"],
                        ldflags=["-fprofile-instr-generate", "-no-pie"])     # source-based coverage, for `bin/reach` only
-WRAP = "-Wl,--wrap=malloc,--wrap=calloc,--wrap=realloc,--wrap=free,--wrap=rand"
+WRAP = "-Wl,--wrap=malloc,--wrap=calloc,--wrap=realloc,--wrap=free,--wrap=rand,--wrap=random,--wrap=lrand48,--wrap=drand48,--wrap=rand_r"
 HOOK_DEFINE = "-DOPENFEC_VERIF"   # guard reserved for hooks in /repo (none exist; see MANIFEST.hooks)
 
 
@@ -105,8 +105,11 @@ def build(variant="asan", quiet=True):
         objs.append(o)
         if rebuild_lib or not os.path.exists(o):
             jobs.append([v["cc"], "-std=gnu99", "-w"] + v["cflags"] + inc + ["-c", c, "-o", o])
+    shim_job = None
     for f in sorted(os.listdir(SIM)):
         p = os.path.join(SIM, f)
+        if f in ("shim.c", "shim_stub.c"):
+            continue        # handled below: shim.c depends on library internals and may stop compiling after a refactoring
         if f.endswith(".c"):
             o = os.path.join(vdir, "sim", f[:-2] + ".o"); objs.append(o)
             if rebuild_sim or not os.path.exists(o):
@@ -116,9 +119,21 @@ def build(variant="asan", quiet=True):
             if rebuild_sim or not os.path.exists(o):
                 jobs.append([v["cxx"], "-std=c++17", "-Wall", "-Wno-unused-function"] + v["cflags"] + inc + ["-c", p, "-o", o])
 
+    shim_o = os.path.join(vdir, "sim", "shim.o")
+    objs.append(shim_o)
+
     def run(cmd):
         r = subprocess.run(cmd, stdout=subprocess.PIPE, stderr=subprocess.STDOUT, text=True)
         return cmd, r.returncode, r.stdout
+    if rebuild_sim or not os.path.exists(shim_o):
+        base = [v["cc"], "-std=gnu99", "-Wall"] + v["cflags"] + inc + ["-c"]
+        _, rc, out = run(base + [os.path.join(SIM, "shim.c"), "-o", shim_o])
+        if rc != 0:
+            sys.stderr.write("note: sim/shim.c does not compile against this tree's internal headers; using the black-box stub\n")
+            _, rc, out = run(base + [os.path.join(SIM, "shim_stub.c"), "-o", shim_o])
+            if rc != 0:
+                sys.stderr.write("BUILD FAILED: shim_stub.c\n%s\n" % out)
+                raise SystemExit(2)
     failed = False
     with ThreadPoolExecutor(max_workers=os.cpu_count() or 4) as ex:
         for cmd, rc, out in ex.map(run, jobs):
